@@ -54,6 +54,10 @@ type ghost struct {
 	// Reg[v]: address (hex) of the eth key validator v currently has registered
 	// for the chain, as far as the harness knows from accepted registration txs.
 	Reg []string
+	// Lit[v]: the address string exactly as registered (differs from Reg[v] in
+	// spelling only: an alias registration uses lower-case hex and a zero-padded
+	// 32-byte Pubkey, both of which the chain resolves to the same key).
+	Lit []string
 	// Sig[item][validator name]: address of the key that validator had
 	// registered when its stored signature on item was accepted.
 	Sig map[string]map[string]string
@@ -65,7 +69,7 @@ type ghost struct {
 }
 
 func (g *ghost) Clone() explore.Ghost {
-	n := &ghost{Reg: append([]string{}, g.Reg...), Sig: map[string]map[string]string{}, Prev: map[string]string{}, obs: g.obs, depth: g.depth + 1}
+	n := &ghost{Reg: append([]string{}, g.Reg...), Lit: append([]string{}, g.Lit...), Sig: map[string]map[string]string{}, Prev: map[string]string{}, obs: g.obs, depth: g.depth + 1}
 	for it, m := range g.Sig {
 		n.Sig[it] = map[string]string{}
 		for k, v := range m {
@@ -81,9 +85,10 @@ func (g *ghost) Clone() explore.Ghost {
 func (g *ghost) Key() string {
 	b, _ := json.Marshal(struct {
 		R []string
+		L []string
 		S map[string]map[string]string
 		P map[string]string
-	}{g.Reg, g.Sig, g.Prev})
+	}{g.Reg, g.Lit, g.Sig, g.Prev})
 	return string(b)
 }
 
@@ -208,7 +213,7 @@ func run(r *report.Run, shard, nshards int, replayFile string) {
 	e.queues = []string{world.TurnstoneQueue(ref)}
 	e.tq = world.TurnstoneQueue(ref)
 
-	g0 := &ghost{Reg: append([]string{}, e.orig...), Sig: map[string]map[string]string{}, Prev: map[string]string{}}
+	g0 := &ghost{Reg: append([]string{}, e.orig...), Lit: append([]string{}, e.orig...), Sig: map[string]map[string]string{}, Prev: map[string]string{}}
 	g0.obs = e.observe(ctx)
 	var kinds []string
 	for _, k := range sortedKeys(g0.obs) {
@@ -235,10 +240,11 @@ func run(r *report.Run, shard, nshards int, replayFile string) {
 		"tx atomicity re-implemented as in baseapp.runTx (ante cache, msg cache)",
 		"height and time are fixed at 101 (only h mod 10/50/300 and batch time-outs are read by the explored code; none of them fires)",
 		"a compass-id change while a batch is open, snapshot rebuilds and message re-assignment (ReassignOrphanedMessages has no caller in the application) are outside the alphabet",
-		"registered Pubkey is always the 20-byte address of the registered key (what StdChain and pigeon register)",
+		"registered Pubkey is the 20-byte address of the registered key (what StdChain and pigeon register) or, in the alias registration, the same address zero-padded to 32 bytes; the stored PublicKey of a signature is read the way the queue reads it (last 20 bytes)",
 		"signature byte V is accepted as 0/1 or 27/28 for batch confirms (representation, as skyway's EthAddressFromSignature)",
 		"quick tier: invalid signature kinds are enumerated for validator v0 only and one gas value; thorough: all validators, two gas values",
 	}
+	start := time.Now()
 	deadline := r.Deadline(150*time.Second, 23*time.Minute)
 	hash := func(n *explore.Node) string {
 		return n.Ghost.Key() + "|" + w.StoreDigest(n.Ctx, ctypes.StoreKey, skywaytypes.StoreKey, vtypes.StoreKey)
@@ -248,10 +254,10 @@ func run(r *report.Run, shard, nshards int, replayFile string) {
 	// state in which two validators have already estimated the scenario's items
 	// (one end-block away from the election).
 	type scen struct {
-		name     string
-		items    []string
-		dq, dt   int
-		seedable bool
+		name   string
+		items  []string
+		dq, dt int
+		until  float64 // share of the time budget that may be used up when this scenario ends
 	}
 	var mkey, vkey, bkey string
 	for k, it := range g0.obs {
@@ -265,10 +271,10 @@ func run(r *report.Run, shard, nshards int, replayFile string) {
 		}
 	}
 	scens := []scen{
-		{"logic-call", []string{mkey}, 5, 8, true},
-		{"update-valset", []string{vkey}, 5, 8, true},
-		{"batch", []string{bkey}, 5, 8, true},
-		{"all-items", []string{mkey, vkey, bkey}, 3, 6, true},
+		{"logic-call", []string{mkey}, 5, 7, 0.30},
+		{"update-valset", []string{vkey}, 5, 7, 0.55},
+		{"batch", []string{bkey}, 5, 7, 0.80},
+		{"all-items", []string{mkey, vkey, bkey}, 3, 5, 1.0},
 	}
 	var specs []explore.Spec
 	for _, sc := range scens {
@@ -298,7 +304,8 @@ func run(r *report.Run, shard, nshards int, replayFile string) {
 			fmt.Sscanf(s, "%d", &d)
 		}
 		specs = append(specs, explore.Spec{Name: sc.name, Init: init, Ops: ops, Hash: hash, Invariant: e.invariant,
-			MaxDepth: d, Deadline: deadline, ShardDepth: 2, Shard: shard, NShards: nshards})
+			MaxDepth: d, Deadline: start.Add(time.Duration(float64(deadline.Sub(start)) * sc.until)), MaxStates: 120_000,
+			ShardDepth: 2, Shard: shard, NShards: nshards})
 	}
 	if replayFile != "" {
 		if shard == 0 {
@@ -527,8 +534,8 @@ func (e *env) invariant(n *explore.Node) *explore.Fail {
 	// harness sanity: the registry in the store is what the ghost believes
 	for i, v := range e.w.Vals {
 		infos, err := e.w.App.ValsetKeeper.GetValidatorChainInfos(n.Ctx, v.ValAddr)
-		if err != nil || len(infos) != 1 || infos[0].Address != g.Reg[i] {
-			return explore.Failf("harness-registry", "registry of %s in store %v (err %v), ghost %s", v.Name, infos, err, g.Reg[i])
+		if err != nil || len(infos) != 1 || infos[0].Address != g.Lit[i] {
+			return explore.Failf("harness-registry", "registry of %s in store %v (err %v), ghost %s", v.Name, infos, err, g.Lit[i])
 		}
 	}
 	for _, key := range sortedKeys(g.obs) {
@@ -543,7 +550,7 @@ func (e *env) invariant(n *explore.Node) *explore.Fail {
 			if rec == "" {
 				return explore.Failf("sig-invalid:"+where, "%s (%s, estimate %d): stored signature of %s (%x…) does not recover to any key over the current signing bytes %x", key, it.What, it.Est, s.Val, head(s.Sig), it.Bytes)
 			}
-			if !strings.EqualFold(rec, s.Claimed) || (it.Kind == "msg" && !bytes.Equal(ethcommon.HexToAddress(rec).Bytes(), s.Pub)) {
+			if !strings.EqualFold(rec, s.Claimed) || (it.Kind == "msg" && ethcommon.BytesToAddress(s.Pub).Hex() != rec) {
 				return explore.Failf("sig-invalid:"+where, "%s (%s, estimate %d): stored signature of %s recovers to %s over the current signing bytes %x, stored address %s, stored public key %x", key, it.What, it.Est, s.Val, rec, it.Bytes, s.Claimed, s.Pub)
 			}
 			want, ok := g.Sig[key][s.Val]
@@ -699,7 +706,10 @@ func (e *env) deliver(ctx sdk.Context, v *world.Val, msg sdk.Msg) (string, *expl
 		e.txmemo[mk] = tx
 	}
 	res := e.w.DeliverBuiltTx(ctx, tx)
-	if res.Stage == "ante" || res.Stage == "build" || res.Stage == "validate" {
+	if res.Stage == "validate" {
+		return "rejected(validate-basic)", nil
+	}
+	if res.Stage == "ante" || res.Stage == "build" {
 		return "", explore.Failf("harness", "tx of %s failed in %s: %v", v.Name, res.Stage, res.Err)
 	}
 	if !res.OK() {
@@ -745,12 +755,12 @@ type attempt struct {
 // attempts enumerates the submission kinds of validator v for an item.
 func (e *env) attempts(g *ghost, v int, key string, it *itemObs) []attempt {
 	name := e.w.Vals[v].Name
-	cur := g.Reg[v]
+	cur, lit := g.Reg[v], g.Lit[v]
 	o := (v + 1) % len(e.w.Vals)
 	var out []attempt
 	prevKey, signed := g.Sig[key][name]
 	if !signed || prevKey != cur {
-		out = append(out, attempt{"valid", e.sign(cur, it.Bytes), cur})
+		out = append(out, attempt{"valid", e.sign(cur, it.Bytes), lit})
 	}
 	if signed {
 		for _, s := range it.Sigs {
@@ -763,13 +773,13 @@ func (e *env) attempts(g *ghost, v int, key string, it *itemObs) []attempt {
 		return out
 	}
 	out = append(out,
-		attempt{"garbage", garbage(key + name), cur},
-		attempt{"otherkey", e.sign(g.Reg[o], it.Bytes), cur},
-		attempt{"otheraddr", e.sign(g.Reg[o], it.Bytes), g.Reg[o]},
+		attempt{"garbage", garbage(key + name), lit},
+		attempt{"otherkey", e.sign(g.Reg[o], it.Bytes), lit},
+		attempt{"otheraddr", e.sign(g.Reg[o], it.Bytes), g.Lit[o]},
 	)
 	if p, ok := g.Prev[key]; ok {
 		pb, _ := hex.DecodeString(p)
-		out = append(out, attempt{"prevbytes", e.sign(cur, pb), cur})
+		out = append(out, attempt{"prevbytes", e.sign(cur, pb), lit})
 	}
 	if cur != e.orig[v] {
 		out = append(out, attempt{"formerkey", e.sign(e.orig[v], it.Bytes), e.orig[v]})
@@ -811,7 +821,7 @@ func (e *env) ops(n *explore.Node, filter map[string]bool) []explore.Op {
 					ops = append(ops, e.step(fmt.Sprintf("Estimate(%s,%s,%d)", v.Name, key, gas), opCtx{-1, "", "Estimate"},
 						func(ctx sdk.Context, g *ghost) (string, *explore.Fail) {
 							return e.deliver(ctx, v, &ctypes.MsgAddMessageGasEstimates{Metadata: world.Meta(v.Actor), Estimates: []*ctypes.MsgAddMessageGasEstimates_GasEstimate{{
-								MsgId: id, QueueTypeName: q, Value: gas, EstimatedByAddress: g.Reg[vi],
+								MsgId: id, QueueTypeName: q, Value: gas, EstimatedByAddress: g.Lit[vi],
 							}}})
 						}))
 				}
@@ -832,7 +842,7 @@ func (e *env) ops(n *explore.Node, filter map[string]bool) []explore.Op {
 					gas := gas
 					ops = append(ops, e.step(fmt.Sprintf("EstBatch(%s,%s,%d)", v.Name, key, gas), opCtx{-1, "", "EstBatch"},
 						func(ctx sdk.Context, g *ghost) (string, *explore.Fail) {
-							return e.deliver(ctx, v, &skywaytypes.MsgEstimateBatchGas{Metadata: world.Meta(v.Actor), Nonce: nonce, TokenContract: e.token.GetAddress().Hex(), EthSigner: g.Reg[vi], Estimate: gas})
+							return e.deliver(ctx, v, &skywaytypes.MsgEstimateBatchGas{Metadata: world.Meta(v.Actor), Nonce: nonce, TokenContract: e.token.GetAddress().Hex(), EthSigner: g.Lit[vi], Estimate: gas})
 						}))
 				}
 			}
@@ -855,19 +865,36 @@ func (e *env) ops(n *explore.Node, filter map[string]bool) []explore.Op {
 	for vi, v := range w.Vals {
 		vi, v := vi, v
 		p := (vi + len(w.Vals) - 1) % len(w.Vals)
-		cands := []struct{ tag, addr string }{{"own-first", e.orig[vi]}, {"own-second", e.alt[vi]}, {"first-of-" + w.Vals[p].Name, e.orig[p]}}
+		type cand struct {
+			tag, addr, lit string
+			pub            []byte
+		}
+		plain := func(tag, addr string) cand { return cand{tag, addr, addr, ethcommon.HexToAddress(addr).Bytes()} }
+		cands := []cand{plain("own-first", e.orig[vi]), plain("own-second", e.alt[vi]), plain("first-of-"+w.Vals[p].Name, e.orig[p])}
+		if vi < e.hostil {
+			// the key the previous validator holds right now, spelled differently
+			a := g.Reg[p]
+			alias := func(tag, a string) cand {
+				return cand{tag, a, strings.ToLower(a), append(make([]byte, 12), ethcommon.HexToAddress(a).Bytes()...)}
+			}
+			cands = append(cands, alias("alias-of-"+w.Vals[p].Name, a))
+			if e.orig[p] != a {
+				// ... and the key it has moved away from
+				cands = append(cands, alias("alias-first-of-"+w.Vals[p].Name, e.orig[p]))
+			}
+		}
 		for _, c := range cands {
 			c := c
-			if c.addr == g.Reg[vi] {
+			if c.lit == g.Lit[vi] {
 				continue
 			}
 			ops = append(ops, e.step(fmt.Sprintf("ReRegister(%s,%s)", v.Name, c.tag), opCtx{-1, "", "ReRegister/" + strings.SplitN(c.tag, "-", 2)[0]},
 				func(ctx sdk.Context, g *ghost) (string, *explore.Fail) {
 					out, f := e.deliver(ctx, v, &vtypes.MsgAddExternalChainInfoForValidator{Metadata: world.Meta(v.Actor), ChainInfos: []*vtypes.ExternalChainInfo{{
-						ChainType: "evm", ChainReferenceID: ref, Address: c.addr, Pubkey: ethcommon.HexToAddress(c.addr).Bytes(),
+						ChainType: "evm", ChainReferenceID: ref, Address: c.lit, Pubkey: c.pub,
 					}}})
 					if f == nil && out == "ok" {
-						g.Reg[vi] = c.addr
+						g.Reg[vi], g.Lit[vi] = c.addr, c.lit
 					}
 					return out, f
 				}))
